@@ -25,6 +25,8 @@ _INSTALLED = False
 
 
 def _role(m, obj):
+    if obj is None:
+        return "None"
     for name, attr in (("Limg", "left_img"), ("Rimg", "right_img"), ("Lcv", "left_cv"), ("Rcv", "right_cv"),
                        ("Ldisp", "left_disparity"), ("Rdisp", "right_disparity")):
         if getattr(m, attr, None) is obj:
